@@ -56,7 +56,7 @@ def cases(draw, tier, mode):
     n = draw(st.integers(1, 3))
     case["funcs"] = [{"agg": draw(st.sampled_from(c17.CAGGS)), "ignore": draw(st.booleans()),
                       "rma": draw(st.sampled_from(["nan", ["tuple", 0]])), "prob": 0.5,
-                      "weighted": draw(st.booleans())} for _ in range(n)]
+                      "weighted": draw(st.booleans()), "tracing": draw(st.sampled_from([None, True, False]))} for _ in range(n)]
     case["poolsize"] = draw(st.integers(1, 8))
     if mode == "det":
         pts = draw(st.lists(st.tuples(st.integers(1, 6000), st.integers(0, 15)), max_size=6))
